@@ -291,6 +291,7 @@ def readonly_part(rep, tier):
     n = 0
     paths = 0
     bad = []
+    dim_hits = []
     for case in cases:
         try:
             r = case.build()
@@ -313,6 +314,7 @@ def readonly_part(rep, tier):
             paths += len(ps)
             for a in frozen:
                 a.flags.writeable = True
+            dims_of_case(rep, case, r, ps, dim_hits)
         except ValueError as e:
             if "read-only" in str(e):
                 bad.append((case.name, str(e)))
@@ -341,6 +343,100 @@ def readonly_part(rep, tier):
     rep.counts["obligations"] += n
     rep.counts["discharged"] += n - len(bad)
     rep.log("read-only option arrays: %d component cases, %d paths, %d writes" % (n, paths, len(bad)))
+    # dimensional analysis of the same executions
+    confirmed = 0
+    seen = set()
+    for (cname, comp_cls, msg, spec) in dim_hits:
+        key = (comp_cls, spec.get("var"))
+        if key in seen:
+            continue
+        seen.add(key)
+        rep.counts["candidates"] += 1
+        ok, what = replay_dimension(spec)
+        if ok:
+            confirmed += 1
+            rep.violation("units: %s adds quantities of different declared dimension" % comp_cls, msg + " :: " + what, {"case": cname, "dims": True, "spec": {k: v for k, v in spec.items() if k != "factory"}})
+        else:
+            rep.not_reproduced.append({"id": "dimension conflict in %s" % cname, "why": msg + " :: " + what})
+    rep.counts["obligations"] += n
+    rep.counts["discharged"] += n - len(seen)
+    rep.groups.append({"case": "dimensional analysis of the symbolic executions", "components_executed": n, "conflicts": len(seen), "confirmed": confirmed})
+    rep.log("dimensional analysis: %d component cases, %d with a sum of different declared dimensions, %d confirmed" % (n, len(seen), confirmed))
+
+
+def dims_of_case(rep, case, r, paths, hits):
+    """every sum / difference the component forms joins quantities of one declared dimension (symoas.dims: constants that are
+    not simple numbers and mixed-content arrays are of unknown dimension and never conflict)"""
+    from symoas import dims
+
+    meta = r.comp._var_rel2meta
+    vd = {n_: dims.unit_dim(meta[n_].get("units")) for n_ in r.in_names}
+    if r.implicit:
+        for n_ in r.out_names:
+            vd[n_] = dims.unit_dim(meta[n_].get("units"))
+    for p_ in paths[:3]:
+        res = p_.result
+        roots = []
+        for group in ("outputs", "residuals"):
+            for n_, arr in (res.get(group) or {}).items():
+                roots += [x for x in np.asarray(arr, dtype=object).ravel()]
+        _, conf = dims.infer(roots, vd)
+        for (node, a, b, da, db) in conf[:1]:
+            la, lb = dims.leaves_of(a), dims.leaves_of(b)
+            # the variable to blame: a unitless input on the dimensionless side while the other side carries a dimension
+            unitless = [v for v in (la if not da else lb) if v in vd and meta[v].get("units") is None]
+            donors = [v for v in (lb if not da else la) if v in vd and meta[v].get("units") is not None and dims.unit_dim(meta[v]["units"]) == (db if not da else da)]
+            spec = {"factory": case.factory, "cfg": dict(case.cfg), "var": unitless[0] if unitless else None, "unit": meta[donors[0]]["units"] if donors else None,
+                    "case": case.name}
+            hits.append((case.name, type(r.comp).__name__, "%s + %s: dimensions %s and %s" % ("/".join(la) or "const", "/".join(lb) or "const", da, db), spec))
+
+
+def replay_dimension(spec):
+    """the real component on its own: the unitless input is fed the same physical quantity once in the unit its partner in the
+    sum is declared in and once in a thousand times that unit - the outputs must not change"""
+    import warnings
+
+    import openmdao.api as om
+    from openmdao.utils.units import unit_conversion
+
+    var, unit = spec.get("var"), spec.get("unit")
+    if not var or not unit:
+        return False, "no unitless input to blame (all operands carry units): not replayed"
+    try:
+        unit_conversion("k" + unit, unit)
+    except Exception:
+        return False, "no scaled unit for %s" % unit
+    outs = []
+    rng = np.random.default_rng(11)
+    for u_, scale in ((unit, 1.0), ("k" + unit, 1e-3)):
+        comp = spec["factory"](dict(spec["cfg"]))
+        p = om.Problem(reports=False)
+        p.model.add_subsystem("c", comp, promotes=["*"])
+        with warnings.catch_warnings():
+            warnings.simplefilter("ignore")
+            p.setup()
+        shape = np.shape(p.get_val(var))
+        base = 1.0 + np.random.default_rng(11).random(shape)
+        p2 = om.Problem(reports=False)
+        ivc = om.IndepVarComp()
+        ivc.add_output(var, val=base * scale, units=u_)
+        p2.model.add_subsystem("src", ivc, promotes=["*"])
+        comp2 = spec["factory"](dict(spec["cfg"]))
+        p2.model.add_subsystem("c", comp2, promotes=["*"])
+        with warnings.catch_warnings():
+            warnings.simplefilter("ignore")
+            p2.setup()
+            # other inputs: moderate non-zero values
+            r0 = np.random.default_rng(3)
+            for n_ in comp2._var_rel_names["input"]:
+                if n_ != var:
+                    v0 = np.asarray(p2.get_val(n_), dtype=float)
+                    if not np.any(v0):
+                        p2.set_val(n_, 0.3 + r0.random(v0.shape))
+            p2.run_model()
+        outs.append({n_: np.array(p2.get_val("c." + n_), dtype=float) for n_ in comp2._var_rel_names["output"]})
+    worst = max((float(np.nanmax(np.abs(outs[0][n_] - outs[1][n_]))) / max(1.0, float(np.nanmax(np.abs(outs[0][n_])))), n_) for n_ in outs[0])
+    return worst[0] > 1e-9, "given the same %s in %s and in k%s, output %s changes by a relative %.3g" % (var, unit, unit, worst[1], worst[0])
 
 
 def user_array_functions(tier):
